@@ -124,8 +124,12 @@ def lex_text(rs, cfg, rng, vary=True):
     # user <<EOF>> actions
     if cfg.eof_scs:
         eof = ''
-        for sc in cfg.eof_scs:
+        own = getattr(cfg, 'eof_own', None)
+        for sc in (cfg.eof_scs if own is None else own):
             eof += '<%s><<EOF>>\tACT_EOF(%d);\n' % (rs.scs[sc][0], sc)
+        if own is not None:
+            # an unqualified <<EOF>> rule: applies to exactly the start conditions lacking their own
+            eof += '<<EOF>>\tACT_EOF(99);\n'
         a, b, c = text.split('\n%%\n')
         text = a + '\n%%\n' + b + '\n' + eof.rstrip('\n') + '\n%%\n' + c
     return top + text
